@@ -52,6 +52,7 @@ PyObject* py_center_of_mass(PyObject* self, PyObject* args) {
         PyArrayObject* labels_arr = (PyArrayObject*)(labels_obj);
         if (!PyArray_Check(labels_obj) ||
             !PyArray_ISCARRAY_RO(labels_arr) ||
+            !numpy::same_shape(array, labels_arr) ||
             !numpy::check_type<npy_int32>(labels_arr)) {
             PyErr_Format(PyExc_RuntimeError, "%s (second argument is not None, but does not match expectations)", TypeErrorMsg);
             return NULL;
